@@ -270,8 +270,11 @@ defvjp(
 
 defvjp(
     anp._astype,
-    lambda ans, A, dtype, order="K", casting="unsafe", subok=True, copy=True: lambda g: anp._astype(
-        g, A.dtype
+    lambda ans, A, dtype, order="K", casting="unsafe", subok=True, copy=True: lambda g: (
+        # a cast to an integer or boolean type is piecewise constant
+        anp._astype(g, A.dtype)
+        if onp.issubdtype(onp.dtype(dtype), onp.inexact)
+        else anp.zeros(anp.shape(A), dtype=A.dtype)
     ),
 )
 
